@@ -634,3 +634,23 @@ def trace_block(stmts: Sequence[ast.stmt], host: ast.AST, resolve=None, max_dept
     if closures:
         fake.body = closures + fake.body
     return trace(fake, resolve, max_depth)
+
+
+def mentions_whole(expr: ast.AST, text: str, fn: Optional[ast.AST] = None) -> bool:
+    """like mentions(), but the sub-expression must be used as a whole: `self.location` counts, `self.location.name`
+    (an attribute *of* it) does not"""
+    exprs = expand_locals(expr, fn) if fn is not None else [expr]
+    for e in exprs:
+        par = parents_of(e)
+        for n in ast.walk(e):
+            if isinstance(n, (ast.Name, ast.Attribute, ast.Subscript, ast.Call)):
+                try:
+                    if ast.unparse(n) != text:
+                        continue
+                except Exception:
+                    continue
+                p = par.get(n)
+                if isinstance(p, ast.Attribute) and p.value is n:
+                    continue
+                return True
+    return False
